@@ -130,6 +130,13 @@ def reconstruct_config(P, variant):
             return out
         if t[0] == 'dict':
             return {term_literal(k): value_of(v) for k, v in t[1]}
+        if t[0] == 'setitem' and is_c(t[2]):
+            # <plain dict>[key] = value   (no key-path splitting on a plain dict)
+            base = opts_of(t[1])
+            if base is not None:
+                base = dict(base)
+                base[t[2][1]] = value_of(t[3])
+                return base
         return None
 
     def value_of(t):
@@ -174,6 +181,14 @@ def reconstruct_config(P, variant):
             raise AnalysisError('get_config: cannot decode %s' % t[1])
         if t[0] == 'call' and t[1].endswith('SiftConfig'):
             return {}
+        if t[0] == 'mut' and t[1] == 'update' and len(t[3]) == 1:
+            # out.update(<opts>): same as the copy loop (SiftConfig inherits dict.update; no key-path splitting)
+            d = decode(t[2])
+            src = opts_of(t[3][0])
+            if src is None:
+                raise AnalysisError('get_config: update() from %s' % show(t[3][0])[:60])
+            d.update(src)
+            return d
         raise AnalysisError('get_config: cannot decode %s' % show(t)[:80])
     cfg = decode(e.value)
     # mutable module-level tables that end up inside the returned configuration (the same object in every
